@@ -22,3 +22,104 @@ pub open spec fn q_written(out0: Seq<u8>, out: Seq<u8>, p: Seq<u8>) -> bool {
     let qne = name_end(p, 12).unwrap();
     out.len() >= out0.len() + 5 && name_end(out, out0.len() as int) == Some(out.len() - 4) && out.subrange(out.len() - 4, out.len() as int) == p.subrange(qne, qne + 4)
 }
+
+// ---- C07: "... has that part replaced by the target, while every other name, the header, the counts, record order, types, classes, TTLs, opaque
+// data and the OPT record are unchanged up to name case"
+// data of one record: out has its fixed part at ho, the (possibly compressed) input has it at ne
+pub open spec fn rd_ren(out: Seq<u8>, ho: int, p: Seq<u8>, ne: int, tg: Seq<u8>, src: Seq<u8>, sfx: bool) -> bool {
+    let t = be16(p, ne); let l = be16(p, ne + 8) as int; let d = ne + 10; let d2 = ho + 10;
+    out.subrange(ho, ho + 8) == p.subrange(ne, ne + 8) && (
+        if t == 2 || t == 5 || t == 12 { eq_ci(name_exp(out, d2), renamed_name(name_exp(p, d), tg, src, sfx)) }
+        else if t == 15 { out.subrange(d2, d2 + 2) == p.subrange(d, d + 2) && eq_ci(name_exp(out, d2 + 2), renamed_name(name_exp(p, d + 2), tg, src, sfx)) }
+        else if t == 6 { let n1 = name_end(p, d).unwrap(); let n2 = name_end(p, n1).unwrap(); let m1 = name_end(out, d2).unwrap(); let m2 = name_end(out, m1).unwrap();
+                         eq_ci(name_exp(out, d2), renamed_name(name_exp(p, d), tg, src, sfx)) && eq_ci(name_exp(out, m1), renamed_name(name_exp(p, n1), tg, src, sfx))
+                         && out.subrange(m2, m2 + 20) == p.subrange(n2, n2 + 20) }
+        else { be16(out, ho + 8) == l && out.subrange(d2, d2 + l) == p.subrange(d, d + l) })
+}
+pub open spec fn rec_ren(out: Seq<u8>, so: int, p: Seq<u8>, si: int, tg: Seq<u8>, src: Seq<u8>, sfx: bool) -> bool {
+    eq_ci(name_exp(out, so), renamed_name(name_exp(p, si), tg, src, sfx)) && rd_ren(out, name_end(out, so).unwrap(), p, name_end(p, si).unwrap(), tg, src, sfx)
+}
+// a record of the output that the parser accepts keeps its decoded content when the output grows
+pub proof fn lemma_rec_ren_ext(out: Seq<u8>, out2: Seq<u8>, so: int, p: Seq<u8>, si: int, tg: Seq<u8>, src: Seq<u8>, sfx: bool, sec: SecT, seen: bool)
+    requires rr_spec(out, so, sec, seen).is_some(), out.len() <= out2.len(), forall|i: int| 0 <= i < out.len() ==> out2[i] == out[i], rec_ok(p, si)
+    ensures rec_ren(out2, so, p, si, tg, src, sfx) == rec_ren(out, so, p, si, tg, src, sfx), rec_end(out2, so) == rec_end(out, so)
+{
+    lemma_rec_bounds(p, si);
+    let ho = name_end(out, so).unwrap(); let t = be16(out, ho); let l2 = be16(out, ho + 8) as int; let d2 = ho + 10;
+    let ne = name_end(p, si).unwrap(); let l = be16(p, ne + 8) as int;
+    lemma_name_end_ext(out, out2, so);
+    lemma_name_end_bounds(out, so);
+    assert(out2.subrange(ho, ho + 8) =~= out.subrange(ho, ho + 8));
+    assert(be16(out2, ho + 8) == be16(out, ho + 8));
+    if out.subrange(ho, ho + 8) == p.subrange(ne, ne + 8) {
+        assert(t == be16(p, ne)) by { assert(out.subrange(ho, ho + 8)[0] == p.subrange(ne, ne + 8)[0] && out.subrange(ho, ho + 8)[1] == p.subrange(ne, ne + 8)[1]); }
+        if t == 2 || t == 5 || t == 12 { lemma_name_end_ext(out, out2, d2); }
+        else if t == 15 { lemma_name_end_ext(out, out2, d2 + 2); assert(out2.subrange(d2, d2 + 2) =~= out.subrange(d2, d2 + 2)); }
+        else if t == 6 { lemma_name_end_ext(out, out2, d2); let m1 = name_end(out, d2).unwrap(); lemma_name_end_ext(out, out2, m1); let m2 = name_end(out, m1).unwrap();
+                         assert(out2.subrange(m2, m2 + 20) =~= out.subrange(m2, m2 + 20)); }
+        else if l2 == l { assert(out2.subrange(d2, d2 + l) =~= out.subrange(d2, d2 + l)) by { lemma_rr_spec_rec(out, so, sec, seen); lemma_rec_bounds(out, so); } }
+    }
+}
+// the n records of the output from so and the n records of the input from si correspond one to one and in order
+pub open spec fn recs_ren(out: Seq<u8>, so: int, p: Seq<u8>, si: int, n: int, tg: Seq<u8>, src: Seq<u8>, sfx: bool) -> bool
+    decreases n
+{
+    if n <= 0 { true } else { rec_ren(out, so, p, si, tg, src, sfx) && recs_ren(out, rec_end(out, so), p, rec_end(p, si), n - 1, tg, src, sfx) }
+}
+pub proof fn lemma_recs_ren_ext(out: Seq<u8>, out2: Seq<u8>, so: int, p: Seq<u8>, si: int, n: int, tg: Seq<u8>, src: Seq<u8>, sfx: bool, sec: SecT, opt: Option<int>)
+    requires rrs(out, so, n, sec, opt).is_some(), out.len() <= out2.len(), forall|i: int| 0 <= i < out.len() ==> out2[i] == out[i], recs_all(p, si, n)
+    ensures recs_ren(out2, so, p, si, n, tg, src, sfx) == recs_ren(out, so, p, si, n, tg, src, sfx)
+    decreases n
+{
+    if n > 0 {
+        lemma_rec_ren_ext(out, out2, so, p, si, tg, src, sfx, sec, opt.is_some());
+        let r = rr_spec(out, so, sec, opt.is_some()).unwrap();
+        lemma_rr_spec_rec(out, so, sec, opt.is_some());
+        lemma_recs_ren_ext(out, out2, r.0, p, rec_end(p, si), n - 1, tg, src, sfx, sec, if r.1 { Some(so + 1) } else { opt });
+    }
+}
+pub proof fn lemma_recs_ren_append(out: Seq<u8>, so: int, p: Seq<u8>, si: int, n: int, tg: Seq<u8>, src: Seq<u8>, sfx: bool, sec: SecT, opt: Option<int>)
+    requires n >= 0, rrs(out, so, n, sec, opt) matches Some(r) && rec_ren(out, r.0, p, rec_start(p, si, n), tg, src, sfx), recs_ren(out, so, p, si, n, tg, src, sfx)
+    ensures recs_ren(out, so, p, si, n + 1, tg, src, sfx)
+    decreases n
+{
+    if n > 0 {
+        let q = rr_spec(out, so, sec, opt.is_some()).unwrap();
+        lemma_rr_spec_rec(out, so, sec, opt.is_some());
+        lemma_recs_ren_append(out, q.0, p, rec_end(p, si), n - 1, tg, src, sfx, sec, if q.1 { Some(so + 1) } else { opt });
+    } else { reveal_with_fuel(recs_ren, 2); reveal_with_fuel(rrs, 2); reveal_with_fuel(rec_start, 2); }
+}
+// the question: name rewritten (or kept), type and class byte for byte
+pub open spec fn q_ren(out: Seq<u8>, qe2: int, p: Seq<u8>, tg: Seq<u8>, src: Seq<u8>, sfx: bool) -> bool {
+    let qne = name_end(p, 12).unwrap();
+    eq_ci(name_exp(out, 12), renamed_name(name_exp(p, 12), tg, src, sfx)) && out.subrange(qe2, qe2 + 4) == p.subrange(qne, qne + 4)
+}
+pub proof fn lemma_q_ren_ext(out: Seq<u8>, out2: Seq<u8>, qe2: int, p: Seq<u8>, tg: Seq<u8>, src: Seq<u8>, sfx: bool)
+    requires q_ok(out, qe2), q_ren(out, qe2, p, tg, src, sfx), out.len() <= out2.len(), forall|i: int| 0 <= i < out.len() ==> out2[i] == out[i]
+    ensures q_ren(out2, qe2, p, tg, src, sfx)
+{ lemma_name_end_ext(out, out2, 12); lemma_name_end_bounds(out, 12); assert(out2.subrange(qe2, qe2 + 4) =~= out.subrange(qe2, qe2 + 4)); }
+// C07: the renamed message: header byte for byte (hence the counts), the question and then every record, section by section and in order, with
+// every name equal -- up to ASCII case -- to the rewritten form of the input's (expanded) name, or to that name itself where the source does not
+// match, and everything else (types, classes, TTLs, MX preference, SOA numbers, opaque data, the OPT record and its options) byte for byte
+pub open spec fn msg_ren(v: Seq<u8>, p: Seq<u8>, tg: Seq<u8>, src: Seq<u8>, sfx: bool) -> bool {
+    v.len() >= 12 && v.subrange(0, 12) == p.subrange(0, 12) && (name_end(v, 12) matches Some(qe2) && q_ren(v, qe2, p, tg, src, sfx))
+    && recs_ren(v, sec_start(v, Section::Answer), p, sec_start(p, Section::Answer), be16(p, 6) as int, tg, src, sfx)
+    && recs_ren(v, sec_start(v, Section::NameServers), p, sec_start(p, Section::NameServers), be16(p, 8) as int, tg, src, sfx)
+    && recs_ren(v, sec_start(v, Section::Additional), p, sec_start(p, Section::Additional), be16(p, 10) as int, tg, src, sfx)
+}
+pub proof fn lemma_msg_ren(out: Seq<u8>, p: Seq<u8>, qe2: int, o2: int, o3: int, opt4: Option<int>, tg: Seq<u8>, src: Seq<u8>, sfx: bool)
+    requires wf_packet(p), out.len() >= 12, out.subrange(0, 12) == p.subrange(0, 12), q_ok(out, qe2), q_ren(out, qe2, p, tg, src, sfx),
+        rrs(out, qe2 + 4, be16(p, 6) as int, SecT::Answer, None) == Some((o2, None::<int>)),
+        rrs(out, o2, be16(p, 8) as int, SecT::NameServers, None) == Some((o3, None::<int>)),
+        rrs(out, o3, be16(p, 10) as int, SecT::Additional, None) == Some((out.len() as int, opt4)),
+        recs_ren(out, qe2 + 4, p, sec_start(p, Section::Answer), be16(p, 6) as int, tg, src, sfx),
+        recs_ren(out, o2, p, sec_start(p, Section::NameServers), be16(p, 8) as int, tg, src, sfx),
+        recs_ren(out, o3, p, sec_start(p, Section::Additional), be16(p, 10) as int, tg, src, sfx),
+    ensures msg_ren(out, p, tg, src, sfx)
+{
+    assert(p.len() >= 12);
+    assert forall|i: int| 0 <= i < 12 implies out[i] == p[i] by { assert(out[i] == out.subrange(0, 12)[i]); assert(p[i] == p.subrange(0, 12)[i]); }
+    assert(be16(out, 4) == be16(p, 4) && be16(out, 6) == be16(p, 6) && be16(out, 8) == be16(p, 8) && be16(out, 10) == be16(p, 10));
+    lemma_rrs_recs(out, qe2 + 4, be16(p, 6) as int, SecT::Answer, None);
+    lemma_rrs_recs(out, o2, be16(p, 8) as int, SecT::NameServers, None);
+}
